@@ -289,6 +289,13 @@ class SchemaValidator:
     def _validate_resolver_arguments(
         self, path: str, args: Sequence[Argument], resolver: Callable[..., Any],
     ) -> None:
+        if not callable(resolver):
+            self.add_error(
+                'Resolver for "%s" must be callable but got "%r"'
+                % (path, resolver)
+            )
+            return
+
         try:
             sig = signature(resolver)
         except ValueError:
